@@ -703,6 +703,8 @@ func (n *ExtendsNode) Render(w io.Writer, ctx *RenderContext) error {
 	// Create a new context for the parent template, but with our child blocks
 	// This ensures the parent template knows it's being extended and preserves our blocks
 	parentCtx := NewRenderContext(ctx.env, ctx.context, ctx.engine)
+	// A sandbox extends to the parent template
+	parentCtx.sandboxed = ctx.sandboxed
 	parentCtx.extending = true // Flag that the parent is being extended
 
 	// Pass along the parent template as lastLoadedTemplate for relative path resolution
@@ -844,6 +846,7 @@ func (n *IncludeNode) Render(w io.Writer, ctx *RenderContext) error {
 
 		// Create a new context
 		includeCtx = NewRenderContext(ctx.env, contextVars, ctx.engine)
+		includeCtx.sandboxed = ctx.sandboxed // an enclosing sandbox stays in force
 		// Set the template as the lastLoadedTemplate for relative path resolutionn			includeCtx.lastLoadedTemplate = template
 		defer includeCtx.Release()
 
@@ -1115,6 +1118,7 @@ func renderVariableString(text string, ctx *RenderContext, w io.Writer) error {
 func (n *MacroNode) CallMacro(w io.Writer, ctx *RenderContext, args ...interface{}) error {
 	// Create a new context for the macro
 	macroCtx := NewRenderContext(ctx.env, nil, ctx.engine)
+	macroCtx.sandboxed = ctx.sandboxed // macros called from a sandbox run sandboxed
 	macroCtx.parent = ctx
 
 	// Ensure context is released even in error paths
@@ -1224,6 +1228,7 @@ func (n *ImportNode) Render(w io.Writer, ctx *RenderContext) error {
 
 	// Create a new context for the imported template
 	importCtx := NewRenderContext(ctx.env, nil, ctx.engine)
+	importCtx.sandboxed = ctx.sandboxed // imported templates are rendered under the same sandbox
 	// Set the template as the lastLoadedTemplate for relative path resolutionn	importCtx.lastLoadedTemplate = template
 
 	// Ensure context is released even in error paths
@@ -1315,6 +1320,7 @@ func (n *FromImportNode) Render(w io.Writer, ctx *RenderContext) error {
 
 	// Create a new context for the imported template
 	importCtx := NewRenderContext(ctx.env, nil, ctx.engine)
+	importCtx.sandboxed = ctx.sandboxed // imported templates are rendered under the same sandbox
 	// Set the template as the lastLoadedTemplate for relative path resolutionn	importCtx.lastLoadedTemplate = template
 
 	// Ensure context is released even in error paths
